@@ -115,19 +115,38 @@ def cmpx (args : List String) : String :=
           | .err => .err
           | .panic => .panic
         match newWithScope 1 (cps.map Char.ofNat) with
-        | .err => "R1 ERR | R2 ERR | R3 ERR"
+        | .err => "R1 ERR | R2 ERR | R3 ERR | R4 ERR"
         | .panic => "PANIC"
         | .ok (evs, sc) =>
           let c1 := compileProg evs sc
           let sc1 := match c1 with | .ok (_, s) => s | _ => sc
           let c2 := compileProg evs sc1
           let c3 := compileProg evs (Scope.new 1)
-          let rs := [ser c1, ser c2, ser c3]
+          -- R4: another program (harness constant CMPX_SECOND) against the scope the first compilation left behind
+          let second := "(def (Report (zzq 0))) (when true (:= zzfresh (+ Cwnd 1)) (:= zzother zzfresh) (:= Rate (+ zzother zzfresh)))".toList
+          let c4 : Out (Bin × Scope) := match parseSource second with
+            | some (_, evs2) => compileProg evs2 sc1
+            | none => .err
+          let rs := [ser c1, ser c2, ser c3, ser c4]
           if rs.any (fun r => match r with | .panic => true | _ => false) || [c1, c2, c3].any (fun r => match r with | .panic => true | _ => false)
           then "PANIC"
           else
             let r2 := match c1 with | .ok _ => showR (ser c2) | _ => "-"
-            s!"R1 {showR (ser c1)} | R2 {r2} | R3 {showR (ser c3)}"
+            let r4 := match c1 with | .ok _ => showR (ser c4) | _ => "-"
+            s!"R1 {showR (ser c1)} | R2 {r2} | R3 {showR (ser c3)} | R4 {r4}"
   | _ => "BADARG"
+
+/-- `CMPPAR`: compilation is a function of the source (the uid apart): the answers of the sources compiled alone, and nothing
+changes when they are compiled on several threads at once -/
+def cmppar (args : List String) : String :=
+  if args.length < 2 ∨ args.length > 32 then "BADARG" else
+  match args.mapM fromHex with
+  | none => "BADARG"
+  | some bs =>
+    let one (b : Bytes) : String := match compileAndSerializeBytes 1 b [] with
+      | .ok (img, _) => s!"OK {hexOrDash img}"
+      | .err => "ERR"
+      | .panic => "PANIC"
+    joinWith " || " (bs.map one ++ ["STABLE"])
 
 end Portus.Driver
